@@ -1749,7 +1749,8 @@ class QueryBuilder(Selectable, Term):  # type:ignore[misc]
         return " WITH ROLLUP"
 
     def _having_sql(self, ctx: SqlContext) -> str:
-        having = self._havings.get_sql(ctx)  # type:ignore[union-attr]
+        having_ctx = ctx.copy(subquery=True)
+        having = self._havings.get_sql(having_ctx)  # type:ignore[union-attr]
         return f" HAVING {having}"
 
     def _offset_sql(self, ctx: SqlContext) -> str:
